@@ -1,4 +1,5 @@
 import MdVerif.Model.Qcp
+import MdVerif.Proofs.QcpSpectral
 import Mathlib.Tactic.Ring
 import Mathlib.Tactic.Linarith
 import Mathlib.Tactic.Positivity
@@ -19,8 +20,11 @@ the nine `rot` entries) and for all inputs:
   has the root λ = G (msd 0)
 * `c06_root_certificate` a quartic with P(h) > 0, P′(h) ≥ 0, P″(h) ≥ 0, h ≥ 0 has no root above h: used by the harness to certify
   that the value the solver returned is the *largest* root.
-Not proved: that the largest root of the characteristic polynomial bounds the Rayleigh quotient (spectral theorem), and that unit
-quaternions cover SO(3); both are stated in the trusted base.
+* `c06_rayleigh_bound`   **the spectral step** (Proofs/QcpSpectral.lean, from Mathlib's spectral theorem for Hermitian matrices): if no real root
+                         of the code's polynomial exceeds λ, then qᵀKq ≤ λ|q|² for every quaternion
+* `c06_optimal`          hence, with no hypothesis beyond "λ is the largest real root": no rotation R(q) has a smaller residual than
+                         G_a + G_b − 2λ — for every number of atoms and every pair of structures
+Not proved: that unit quaternions cover SO(3) (Euler–Rodrigues); stated in the trusted base.
 -/
 namespace MdVerif.Qcp
 open MdVerif.Mic
@@ -220,5 +224,62 @@ theorem c06_root_certificate (M : M9) (h x : Rat) (hh : 0 ≤ h) (hx : h < x) (h
 /-- non-vacuity: two 3-atom structures related by a quarter turn about z have msd 0: λ = G is a root -/
 example : P (innerM [(⟨1, 0, 0⟩, ⟨0, 1, 0⟩), (⟨0, 2, 0⟩, ⟨-2, 0, 0⟩), (⟨0, 0, 3⟩, ⟨0, 0, 3⟩)]) 14 = 0 := by
   norm_num [P, C2, C1, C0, detM, keyK, innerM, M9.add, M9.ofPair, M9.zero]
+
+/-- **the spectral step**: an upper bound of the real roots of the characteristic polynomial bounds the Rayleigh quotient of `K` -/
+theorem c06_rayleigh_bound (M : M9) (lam : ℝ) (hmax : ∀ μ : ℝ, PR M μ = 0 → μ ≤ lam) (q : Quat) :
+    ((quadK M q : Rat) : ℝ) ≤ lam * ((q.norm2 : Rat) : ℝ) := by
+  rw [quadK_cast, norm2_cast]
+  unfold keyKR
+  apply rayleigh_le_of_root_bound
+  intro μ hμ
+  apply hmax
+  rw [← det_keyKR_sub]
+  unfold keyKR
+  rw [det_K4_sub]
+  exact hμ
+
+/-- **optimality**: if λ is the largest real root of the polynomial the code solves (it is a root, and no real root exceeds it), then
+no rotation of the form R(q), |q| = 1, brings the two structures closer than G_a + G_b − 2λ — for all structures and all atom counts -/
+theorem c06_optimal (pairs : List (V3 × V3)) (lam : ℝ) (hmax : ∀ μ : ℝ, PR (innerM pairs) μ = 0 → μ ≤ lam)
+    (q : Quat) (hq : q.norm2 = 1) :
+    ((traceG (pairs.map (·.1)) + traceG (pairs.map (·.2)) : Rat) : ℝ) - 2 * lam
+      ≤ (((pairs.map (fun p => ((applyRot (rotOf q) p.1).sub p.2).norm2)).sum : Rat) : ℝ) := by
+  rw [c06_residual q hq pairs]
+  have h := c06_rayleigh_bound (innerM pairs) lam hmax q
+  rw [hq] at h
+  push_cast at h ⊢
+  linarith
+
+/-- a rational root that bounds all real roots: the msd the code reports, (G_a + G_b − 2λ)/N, is then the minimum over all R(q), and the
+quaternion the code uses attains it (`c06_attained` with `c06_rayleigh_bestCol`) -/
+theorem c06_optimal_rational (pairs : List (V3 × V3)) (l : Rat) (hmax : ∀ μ : ℝ, PR (innerM pairs) μ = 0 → μ ≤ (l : ℝ))
+    (q : Quat) (hq : q.norm2 = 1) :
+    traceG (pairs.map (·.1)) + traceG (pairs.map (·.2)) - 2 * l
+      ≤ (pairs.map (fun p => ((applyRot (rotOf q) p.1).sub p.2).norm2)).sum := by
+  have h := c06_optimal pairs (l : ℝ) hmax q hq
+  have : ((traceG (pairs.map (·.1)) + traceG (pairs.map (·.2)) - 2 * l : Rat) : ℝ)
+      ≤ (((pairs.map (fun p => ((applyRot (rotOf q) p.1).sub p.2).norm2)).sum : Rat) : ℝ) := by
+    push_cast at h ⊢; linarith
+  exact_mod_cast this
+
+/-- non-vacuity of the root hypothesis: for the quarter-turn example λ = 14 is a root and bounds every real root
+(P(14 + t) = t⁴ + 56 t³ + 1120 t² + … has positive coefficients) -/
+example : PR (innerM [(⟨1, 0, 0⟩, ⟨0, 1, 0⟩), (⟨0, 2, 0⟩, ⟨-2, 0, 0⟩), (⟨0, 0, 3⟩, ⟨0, 0, 3⟩)]) 14 = 0 ∧
+    ∀ μ : ℝ, PR (innerM [(⟨1, 0, 0⟩, ⟨0, 1, 0⟩), (⟨0, 2, 0⟩, ⟨-2, 0, 0⟩), (⟨0, 0, 3⟩, ⟨0, 0, 3⟩)]) μ = 0 → μ ≤ 14 := by
+  have h2 : C2 (innerM [(⟨1, 0, 0⟩, ⟨0, 1, 0⟩), (⟨0, 2, 0⟩, ⟨-2, 0, 0⟩), (⟨0, 0, 3⟩, ⟨0, 0, 3⟩)]) = -196 := by decide +kernel
+  have h1 : C1 (innerM [(⟨1, 0, 0⟩, ⟨0, 1, 0⟩), (⟨0, 2, 0⟩, ⟨-2, 0, 0⟩), (⟨0, 0, 3⟩, ⟨0, 0, 3⟩)]) = -288 := by decide +kernel
+  have h0 : C0 (innerM [(⟨1, 0, 0⟩, ⟨0, 1, 0⟩), (⟨0, 2, 0⟩, ⟨-2, 0, 0⟩), (⟨0, 0, 3⟩, ⟨0, 0, 3⟩)]) = 4032 := by decide +kernel
+  simp only [PR, h2, h1, h0]
+  constructor
+  · norm_num
+  · intro μ hμ
+    by_contra hc
+    push_neg at hc
+    have ht : 0 < μ - 14 := by linarith
+    have e : μ * μ * μ * μ + ((-196 : Rat) : ℝ) * μ * μ + ((-288 : Rat) : ℝ) * μ + ((4032 : Rat) : ℝ)
+        = (μ - 14) ^ 4 + 56 * (μ - 14) ^ 3 + 980 * (μ - 14) ^ 2 + 5200 * (μ - 14) := by push_cast; ring
+    rw [e] at hμ
+    have : 0 < (μ - 14) ^ 4 + 56 * (μ - 14) ^ 3 + 980 * (μ - 14) ^ 2 + 5200 * (μ - 14) := by positivity
+    linarith
 
 end MdVerif.Qcp
